@@ -23,7 +23,13 @@ Init == \/ /\ Mode = "emit" /\ n = 0
                        DoomOK(s) /\ HP(s) = Part \div P1 /\ cs = s
         \/ Mode = "judge" /\ n \in 1..Len(Data) /\ cs = <<>>
 Spec == Init /\ [][UNCHANGED <<cs, n>>]_<<cs, n>>
-Emit == Mode = "emit" => PrintT(ToJson([cs |-> cs]))
+(* how the competitors are WRITTEN, which the rule does not depend on: whether the match is one branch of an or-group
+   (`match E(..) or Zq()`: the flow reaches its action through a head fork and merge) and in which order the action's
+   parameters are spelled; derived from the family and the partition so that every run sees other combinations,
+   and two otherwise equal competitors always differ in spelling *)
+Pres(s) == [i \in 1..Len(s) |-> [via |-> ((Hc(s[i]) + 7 * i + H(s) + Part) % 2 = 1),
+                                  sp  |-> ((Hc(s[i]) + i + Part) % 2)]]
+Emit == Mode = "emit" => PrintT(ToJson([cs |-> cs, pres |-> Pres(cs)]))
 Verdict == Mode = "judge" => PrintT(ToJson([n |-> n, ok |-> Allowed(Data[n].cs, Data[n].obs)]))
 (* design sanity: some outcome is always allowed (the rule is satisfiable) for two competitors *)
 =============================================================================
